@@ -10,7 +10,9 @@ From WV Require Import Lib.PyBytes Lib.Regex Gen.GenRegex Model.Receiver Model.U
 Import ListNotations.
 Local Open Scope N_scope.
 
-Definition hp_set (x : bytes) (p : parser) : parser := p <| header_plus := x |>.
+(* setting the two carry fields of the head phase *)
+Definition cset (x : bytes) (k : N) (p : parser) : parser :=
+  p <| header_plus := x |> <| header_bytes_received := k |>.
 
 Ltac psimpl := cbn [set Parser.completed Parser.empty Parser.expect_continue Parser.headers_finished
   Parser.header_plus Parser.chunked Parser.content_length Parser.header_bytes_received Parser.body_bytes_received
@@ -50,7 +52,8 @@ Definition ph_v11 (p : parser) (h1 : hdict) (ver connection : bytes) : parser * 
                   | (p, None) =>
                     let expect := lower_latin1 (hget_default (headers p) s_EXPECT []) in
                     let p := p <| expect_continue := beqb expect s_100_continue |> in
-                    let p := if beqb (lower_latin1 connection) s_close
+                    let p := if existsb (fun t => beqb (strip_by is_sp_htab t) s_close)
+                                        (split (lower_latin1 connection) [44])
                              then p <| connection_close := true |> else p in
                     (p, None)
                   end
@@ -78,6 +81,9 @@ Definition ph_mid (a : adj) (p : parser) (h1 : hdict) (uri ver : bytes) : parser
             let connection := hget_default h1 s_CONNECTION [] in
             let p := if beqb ver s_1_0 && negb (beqb (lower_latin1 connection) s_keep_alive)
                      then p <| connection_close := true |> else p in
+            let p := if negb (beqb ver s_1_1)
+                        && (match hget h1 s_TRANSFER_ENCODING with Some _ => true | None => false end)
+                     then p <| connection_close := true |> else p in
             match ph_v11 p h1 ver connection with
             | (p, Some e) => (p, PSError e)
             | (p, None) => ph_tail p
@@ -89,7 +95,7 @@ Lemma parse_header_eq a p hp :
   match find hp CRLF with
   | None => (p, PSError EHeaderInvalid)
   | Some index =>
-    let fl := rstrip_by is_bytes_ws (firstn index hp) in
+    let fl := rstrip_by is_reqline_ws (firstn index hp) in
     let header := skipn (index + 2) hp in
     if has_cr_or_lf fl then (p, PSError EBareCRLFFirstLine)
     else
@@ -114,48 +120,43 @@ Lemma parse_header_eq a p hp :
   end.
 Proof. reflexivity. Qed.
 
-Lemma ph_v11_hp x p h1 ver c :
-  ph_v11 (hp_set x p) h1 ver c = let '(p1, e) := ph_v11 p h1 ver c in (hp_set x p1, e).
-Proof. unfold ph_v11, hp_set. psimpl. repeat ph_step; reflexivity. Qed.
+Lemma ph_v11_hp x k p h1 ver c :
+  ph_v11 (cset x k p) h1 ver c = let '(p1, e) := ph_v11 p h1 ver c in (cset x k p1, e).
+Proof. unfold ph_v11, cset. psimpl. repeat ph_step; reflexivity. Qed.
 
-Lemma ph_tail_hp x p :
-  ph_tail (hp_set x p) = let '(p1, e) := ph_tail p in (hp_set x p1, e).
-Proof. unfold ph_tail, hp_set. psimpl. repeat ph_step; reflexivity. Qed.
+Lemma ph_tail_hp x k p :
+  ph_tail (cset x k p) = let '(p1, e) := ph_tail p in (cset x k p1, e).
+Proof. unfold ph_tail, cset. psimpl. repeat ph_step; reflexivity. Qed.
 
-Lemma ph_mid_hp a x p h1 uri ver :
-  ph_mid a (hp_set x p) h1 uri ver = let '(p1, e) := ph_mid a p h1 uri ver in (hp_set x p1, e).
+Lemma ph_mid_hp a x k p h1 uri ver :
+  ph_mid a (cset x k p) h1 uri ver = let '(p1, e) := ph_mid a p h1 uri ver in (cset x k p1, e).
 Proof.
   unfold ph_mid. destruct (split_uri uri) as [sc nl pa qu fr| | |]; try reflexivity.
   cbv zeta.
   set (c := hget_default h1 s_CONNECTION []).
-  set (q0 := p <| p_scheme := sc |> <| p_netloc := nl |> <| path := pa |>
-               <| query := qu |> <| fragment := fr |> <| url_scheme := adj_url_scheme a |>).
-  destruct (beqb ver s_1_0 && negb (beqb (lower_latin1 c) s_keep_alive)).
-  - change (ph_v11 (hp_set x p <| p_scheme := sc |> <| p_netloc := nl |> <| path := pa |>
-               <| query := qu |> <| fragment := fr |> <| url_scheme := adj_url_scheme a |>
-               <| connection_close := true |>) h1 ver c) with
-      (ph_v11 (hp_set x (q0 <| connection_close := true |>)) h1 ver c).
-    rewrite ph_v11_hp. destruct (ph_v11 _ h1 ver c) as [p1 [e|]]; [reflexivity|]. apply ph_tail_hp.
-  - change (ph_v11 (hp_set x p <| p_scheme := sc |> <| p_netloc := nl |> <| path := pa |>
-               <| query := qu |> <| fragment := fr |> <| url_scheme := adj_url_scheme a |>) h1 ver c) with
-      (ph_v11 (hp_set x q0) h1 ver c).
-    rewrite ph_v11_hp. destruct (ph_v11 _ h1 ver c) as [p1 [e|]]; [reflexivity|]. apply ph_tail_hp.
+  destruct (beqb ver s_1_0 && negb (beqb (lower_latin1 c) s_keep_alive));
+  destruct (negb (beqb ver s_1_1) && _);
+  (lazymatch goal with
+   | |- (match ph_v11 ?q _ _ _ with _ => _ end) = (let '(_, _) := (match ph_v11 ?q' _ _ _ with _ => _ end) in _) =>
+     change q with (cset x k q')
+   end;
+   rewrite ph_v11_hp; destruct (ph_v11 _ h1 ver c) as [p1 [e|]]; [reflexivity|]; apply ph_tail_hp).
 Qed.
 
-Lemma parse_header_hp a p x h :
-  parse_header a (hp_set x p) h =
-  let '(p1, st) := parse_header a p h in (hp_set x p1, st).
+Lemma parse_header_hp a p x k h :
+  parse_header a (cset x k p) h =
+  let '(p1, st) := parse_header a p h in (cset x k p1, st).
 Proof.
   rewrite !parse_header_eq.
   destruct (find h CRLF); [|reflexivity]. cbv zeta.
   destruct (has_cr_or_lf _); [reflexivity|].
   destruct (get_header_lines _); [reflexivity|].
-  change (headers (hp_set x p <| first_line := rstrip_by is_bytes_ws (firstn n h) |>)) with (headers p).
-  change (headers (p <| first_line := rstrip_by is_bytes_ws (firstn n h) |>)) with (headers p).
+  change (headers (cset x k p <| first_line := rstrip_by is_reqline_ws (firstn n h) |>)) with (headers p).
+  change (headers (p <| first_line := rstrip_by is_reqline_ws (firstn n h) |>)) with (headers p).
   destruct (add_header_lines (headers p) l) as [[e h0]|h1]; [reflexivity|].
   destruct (crack_first_line _) as [[[cmd uri] ver]|]; [|reflexivity].
   destruct (beqb cmd [] && beqb uri [] && beqb ver []); [reflexivity|].
-  exact (ph_mid_hp a x (p <| first_line := rstrip_by is_bytes_ws (firstn n h) |> <| headers := h1 |>
+  exact (ph_mid_hp a x k (p <| first_line := rstrip_by is_reqline_ws (firstn n h) |> <| headers := h1 |>
                           <| request_uri := uri |> <| command := cmd |> <| version := ver |>) h1 uri ver).
 Qed.
 
@@ -185,7 +186,7 @@ Proof.
   unfold ph_mid. destruct (split_uri uri) as [sc nl pa qu fr| | |]; try apply frame_refl.
   cbv zeta. set (c := hget_default h1 s_CONNECTION []).
   match goal with |- context [ph_v11 ?q h1 ver c] => set (q1 := q) end.
-  assert (F1 : frame p q1) by (subst q1; destruct (_ && _); frame_tac).
+  assert (F1 : frame p q1) by (subst q1; destruct (_ && _); destruct (_ && _); frame_tac).
   pose proof (ph_v11_frame q1 h1 ver c) as F2.
   destruct (ph_v11 q1 h1 ver c) as [p1 [e|]]; cbn [fst] in *.
   - eapply frame_trans; eauto.
@@ -247,7 +248,7 @@ Proof.
   cbv zeta. set (c := hget_default h1 s_CONNECTION []).
   match goal with |- context [ph_v11 ?q h1 ver c] => set (q1 := q) end.
   assert (B1 : body q1 = None /\ chunked q1 = false /\ content_length q1 = 0).
-  { subst q1; destruct (_ && _); psimpl; auto. }
+  { subst q1; destruct (_ && _); destruct (_ && _); psimpl; auto. }
   pose proof (ph_v11_shape q1 h1 ver c) as S.
   destruct (ph_v11 q1 h1 ver c) as [p2 [e|]]; cbn [fst] in *; [discriminate|].
   intros T. apply ph_tail_shape in T. unfold head_result_shape.
@@ -298,4 +299,167 @@ Proof.
   destruct (split_uri uri) as [sc nl pa qu fr| | |]; try discriminate; [|congruence].
   cbv zeta. destruct (ph_v11 _ h1 ver _) as [p2 [e|]]; [discriminate|].
   apply ph_tail_no_escape.
+Qed.
+
+(* ------------------------------------------------------------------ *)
+(* well-formed parser states and totality of received() *)
+
+(* a parser that is still reading its head: everything but the two carry
+   fields is as in a fresh parser *)
+Definition P0 (hp : bytes) : parser :=
+  parser_init <| header_plus := hp |> <| header_bytes_received := lenN hp |>.
+
+Lemma fake_head_ok a hp n :
+  snd (parse_header a (P0 hp <| header_bytes_received := n |>) fake_head_431) = PSOk.
+Proof. vm_compute. reflexivity. Qed.
+
+Definition wf_body (a : adj) (p : parser) : Prop :=
+  match body p with
+  | None => exists hp, p = P0 hp /\ find hp CRLFCRLF = None
+  | Some (BFixed f) =>
+      headers_finished p = true /\ f_completed f = false /\ 1 <= f_remain f
+  | Some (BChunked c) =>
+      headers_finished p = true /\ wf_c c /\ c_completed c = false /\ c_error c = None /\
+      (Z.of_nat (phi c) <= body_bytes_received p)%Z /\ chunked p = true
+  end.
+
+Definition wf_p (a : adj) (p : parser) : Prop :=
+  completed p = false /\ error p = None /\ wf_body a p /\
+  (header_plus p = [] \/ lenN (header_plus p) < max_request_header_size a) /\
+  (body_bytes_received p = 0 \/ body_bytes_received p < Z.of_N (max_request_body_size a))%Z.
+
+Lemma wf_p_init a : wf_p a parser_init.
+Proof.
+  unfold wf_p, wf_body. cbn. repeat split; auto. exists []. repeat split.
+Qed.
+
+Lemma P0_app hp data :
+  P0 hp <| header_bytes_received := lenN hp + lenN data |> <| header_plus := hp ++ data |> = P0 (hp ++ data).
+Proof. unfold P0. rewrite lenN_app. reflexivity. Qed.
+
+(* header mode *)
+Lemma received_head_total a hp data :
+  find hp CRLFCRLF = None -> (hp = [] \/ lenN hp < max_request_header_size a) -> data <> [] ->
+  received a (P0 hp) data = RUnmodelled \/
+  exists p' n, received a (P0 hp) data = ROk p' n /\ (1 <= n <= Z.of_nat (length data))%Z /\
+               (completed p' = true \/ wf_p a p').
+Proof.
+  intros Hf Hl Hd.
+  assert (Ld : 1 <= lenN data) by (destruct data; [congruence | rewrite lenN_cons; lia]).
+  unfold received. change (completed (P0 hp)) with false. change (body (P0 hp)) with (@None body_rcv).
+  cbv iota. change (header_plus (P0 hp)) with hp. change (header_bytes_received (P0 hp)) with (lenN hp).
+  cbv zeta.
+  destruct (find_double_newline (hp ++ data)) as [i|] eqn:Hi.
+  - cbv beta iota zeta. apply fdn_Some in Hi as (j & Hj & ->).
+    pose proof (find_bound _ _ _ Hj) as B1. change (length CRLFCRLF) with 4%nat in B1.
+    pose proof (find_app_none_l _ _ _ _ Hf Hj) as B2. change (length CRLFCRLF) with 4%nat in B2.
+    rewrite app_length in B1.
+    assert (Hn : (1 <= Z.of_N (lenN data) - (Z.of_nat (length (hp ++ data)) - Z.of_nat (j + 4))
+                  <= Z.of_nat (length data))%Z).
+    { rewrite app_length. unfold lenN. lia. }
+    set (n := (Z.of_N (lenN data) - (Z.of_nat (length (hp ++ data)) - Z.of_nat (j + 4)))%Z) in *.
+    set (p' := P0 hp <| header_bytes_received := N.of_nat (j + 4) |>).
+    destruct (max_request_header_size a <=? N.of_nat (j + 4)) eqn:Hmax.
+    + pose proof (fake_head_ok a hp (N.of_nat (j + 4))) as Fk.
+      destruct (parse_header a p' fake_head_431) as [p1 st] eqn:E. subst p'. cbv beta in Fk. rewrite E in Fk.
+      cbn [snd] in Fk. subst st.
+      right. eexists _, _. split; [reflexivity|]. split; [exact Hn|]. left. reflexivity.
+    + destruct (lstrip_by _ _) as [|h0 hs] eqn:Hstrip.
+      * right. eexists _, _. split; [reflexivity|]. split; [exact Hn|]. left. reflexivity.
+      * pose proof (parse_header_no_escape a p' (h0 :: hs)) as NE.
+        pose proof (parse_header_frame a p' (h0 :: hs)) as Fr.
+        pose proof (parse_header_shape a p' (h0 :: hs)) as Sh.
+        destruct (parse_header a p' (h0 :: hs)) as [p1 st]. cbn [fst snd] in *.
+        destruct st as [|e| |].
+        -- right.
+           destruct Fr as (F1 & F2 & F3 & F4 & F5 & F6 & F7).
+           specialize (Sh p1 eq_refl eq_refl eq_refl eq_refl).
+           eexists _, _. split; [reflexivity|]. split; [exact Hn|].
+           destruct Sh as [(S1 & S2 & S3)|[(S1 & S2 & S3)|(S1 & S2 & S3)]].
+           ++ left. rewrite S1. psimpl. rewrite S3. cbn. reflexivity.
+           ++ right. rewrite S1. psimpl. rewrite S3. cbn [N.ltb N.compare andb].
+              unfold wf_p, wf_body. psimpl. rewrite S1, F1, F7, F4, F6.
+              split; [reflexivity|]. split; [reflexivity|]. split; [|split; [exact Hl | left; reflexivity]].
+              split; [reflexivity|]. split; [apply wf_init|]. split; [reflexivity|]. split; [reflexivity|].
+              split; [cbn; lia | exact S2].
+           ++ rewrite S3. psimpl.
+              destruct ((0 <? content_length p1) && (max_request_body_size a <=? content_length p1)) eqn:Hb.
+              ** left. reflexivity.
+              ** right. unfold wf_p, wf_body. psimpl. rewrite S3, F1, F7, F4, F6.
+                 split; [reflexivity|]. split; [reflexivity|]. split; [|split; [exact Hl | left; reflexivity]].
+                 split; [reflexivity|]. split; [reflexivity|]. cbn [fixed_init f_remain]. lia.
+        -- right. eexists _, _. split; [reflexivity|]. split; [exact Hn|]. left. reflexivity.
+        -- congruence.
+        -- left. reflexivity.
+  - cbv beta iota zeta. apply fdn_None in Hi.
+    assert (Hn : (1 <= Z.of_N (lenN data) <= Z.of_nat (length data))%Z) by (unfold lenN in *; lia).
+    destruct (max_request_header_size a <=? lenN hp + lenN data) eqn:Hmax.
+    + pose proof (fake_head_ok a hp (lenN hp + lenN data)) as Fk.
+      cbv beta in Fk. destruct (parse_header a _ fake_head_431) as [p1 st] eqn:E.
+      cbn [snd] in Fk. subst st.
+      right. eexists _, _. split; [reflexivity|]. split; [exact Hn|]. left. reflexivity.
+    + right. eexists _, _. split; [reflexivity|]. split; [exact Hn|]. right.
+      rewrite P0_app. apply N.leb_gt in Hmax.
+      unfold wf_p, wf_body. change (body (P0 (hp ++ data))) with (@None body_rcv).
+      change (header_plus (P0 (hp ++ data))) with (hp ++ data).
+      repeat split; auto.
+      * exists (hp ++ data). auto.
+      * right. rewrite lenN_app. lia.
+Qed.
+
+Lemma received_body_total a p br data :
+  wf_p a p -> body p = Some br -> data <> [] ->
+  exists p' n, received a p data = ROk p' n /\ (1 <= n <= Z.of_nat (length data))%Z /\
+               (completed p' = true \/ wf_p a p').
+Proof.
+  intros (Wc & We & Wb & Wh & Wbb) Hb Hd. unfold wf_body in Wb. rewrite Hb in Wb.
+  unfold received. rewrite Wc, Hb. cbv iota.
+  destruct br as [f|c].
+  - destruct Wb as (Hhf & Hfc & Hfr).
+    pose proof (fixed_received_spec f data Hfr Hd) as S.
+    destruct (fixed_received f data) as [f' n]. cbv beta iota zeta.
+    destruct S as (Bn & Sf).
+    destruct (Z.of_N (max_request_body_size a) <=? body_bytes_received p + n)%Z eqn:Hmax.
+    + eexists _, _. split; [reflexivity|]. split; [exact Bn|]. left. reflexivity.
+    + apply Z.leb_gt in Hmax.
+      destruct (f_completed f') eqn:Hc'.
+      * eexists _, _. split; [reflexivity|]. split; [exact Bn|]. left.
+        psimpl. destruct (chunked p); reflexivity.
+      * eexists _, _. split; [reflexivity|]. split; [exact Bn|]. right.
+        destruct Sf as [Sf|(S1 & S2 & S3)]; [congruence|].
+        unfold wf_p, wf_body. psimpl.
+        split; [exact Wc|]. split; [exact We|]. split; [|split; [exact Wh | right; exact Hmax]].
+        split; [exact Hhf|]. split; [exact Hc' | exact S2].
+  - destruct Wb as (Hhf & Wfc & Hcc & Hce & Hphi & Hch).
+    destruct (chunked_received_spec c data Wfc Hcc Hd) as (c' & n & E & W' & Bn & Ph & Hall).
+    rewrite E. cbv beta iota zeta.
+    destruct (Z.of_N (max_request_body_size a) <=? body_bytes_received p + n)%Z eqn:Hmax.
+    + eexists _, _. split; [reflexivity|]. split; [exact Bn|]. left. reflexivity.
+    + apply Z.leb_gt in Hmax.
+      destruct (c_error c') eqn:He'.
+      * eexists _, _. split; [reflexivity|]. split; [exact Bn|]. left. reflexivity.
+      * destruct (c_completed c') eqn:Hc'.
+        -- eexists _, _. split; [reflexivity|]. split; [exact Bn|]. left.
+           psimpl. destruct (chunked p); reflexivity.
+        -- eexists _, _. split; [reflexivity|]. split; [exact Bn|]. right.
+           unfold wf_p, wf_body. psimpl.
+           split; [exact Wc|]. split; [exact We|]. split; [|split; [exact Wh | right; exact Hmax]].
+           split; [exact Hhf|]. split; [exact W'|]. split; [exact Hc'|]. split; [exact He'|].
+           split; [lia | exact Hch].
+Qed.
+
+(* HTTPRequestParser.received on a well-formed, not completed parser and a
+   non-empty read: no exception escapes, the chunked loop does not run out of
+   fuel, between 1 and len(data) bytes are consumed, and the parser is either
+   completed or well-formed again.  (RUnmodelled: request-targets with a
+   bracketed host, which UrlSplit.v does not model.) *)
+Theorem received_total a p data : wf_p a p -> data <> [] ->
+  received a p data = RUnmodelled \/
+  exists p' n, received a p data = ROk p' n /\ (1 <= n <= Z.of_nat (length data))%Z /\
+               (completed p' = true \/ wf_p a p').
+Proof.
+  intros W Hd. destruct (body p) as [br|] eqn:Hb.
+  - right. eapply received_body_total; eauto.
+  - destruct W as (Wc & We & Wb & Wh & Wbb). unfold wf_body in Wb. rewrite Hb in Wb.
+    destruct Wb as (hp & -> & Hf). apply received_head_total; auto.
 Qed.
